@@ -21,6 +21,7 @@ import (
 	redisstore "github.com/projecteru2/core/store/redis"
 	coretypes "github.com/projecteru2/core/types"
 	"github.com/projecteru2/core/utils"
+	clientv3 "go.etcd.io/etcd/client/v3"
 	"verif/harness/vt"
 )
 
@@ -36,15 +37,20 @@ type backends struct {
 	etcd  store.Store
 	redis store.Store
 	mr    *miniredis.Miniredis
+	cfg   coretypes.Config
 }
+
+var engineOnce sync.Once
 
 func newBackends(t *testing.T) *backends {
 	cfg := coretypes.Config{
 		MaxConcurrency: 100000,
 		GlobalTimeout:  30 * time.Second,
-		Etcd:           coretypes.EtcdConfig{Prefix: "/verifstore", LockPrefix: "__lock__"},
+		// the engine cache's liveness loop sleeps ConnectionTimeout between rounds: zero would spin
+		ConnectionTimeout: 10 * time.Second,
+		Etcd:              coretypes.EtcdConfig{Prefix: "/verifstore", LockPrefix: "__lock__"},
 	}
-	enginefactory.InitEngineCache(context.Background(), cfg, nil)
+	engineOnce.Do(func() { enginefactory.InitEngineCache(context.Background(), cfg, nil) })
 	e, err := etcdv3.New(cfg, t)
 	if err != nil {
 		t.Fatal(err)
@@ -60,7 +66,23 @@ func newBackends(t *testing.T) *backends {
 	if err != nil {
 		t.Fatal(err)
 	}
-	return &backends{etcd: e, redis: r, mr: mr}
+	return &backends{etcd: e, redis: r, mr: mr, cfg: cfg}
+}
+
+// newRedisOnly: another miniredis + Rediaron next to the shared etcd store.
+func newRedisOnly(t *testing.T, first *backends) *backends {
+	mr, err := miniredis.Run()
+	if err != nil {
+		t.Fatal(err)
+	}
+	t.Cleanup(mr.Close)
+	rcfg := first.cfg
+	rcfg.Redis = coretypes.RedisConfig{Addr: mr.Addr(), LockPrefix: "__lock__"}
+	r, err := redisstore.New(rcfg, t)
+	if err != nil {
+		t.Fatal(err)
+	}
+	return &backends{etcd: first.etcd, redis: r, mr: mr, cfg: first.cfg}
 }
 
 var appOf = map[string]string{"w1": "a", "w2": "a", "w3": "a", "w4": "b"}
@@ -76,7 +98,7 @@ func (n names) x(s string) string {
 	return s + n.sfx
 }
 func (n names) strip(s string) string { return strings.TrimSuffix(s, n.sfx) }
-func (n names) mine(s string) bool  { return strings.HasSuffix(s, n.sfx) }
+func (n names) mine(s string) bool    { return strings.HasSuffix(s, n.sfx) }
 
 func (n names) workload(w, node string) *coretypes.Workload {
 	id := n.x(w)
@@ -159,7 +181,7 @@ func ids(ws []*coretypes.Workload, err error, nm names) any {
 	}
 	out := []string{}
 	for _, w := range ws {
-		out = append(out, nm.strip(w.ID))
+		out = append(out, nm.strip(w.ID)+"@"+nm.strip(w.Nodename))
 	}
 	sort.Strings(out)
 	return out
@@ -276,55 +298,98 @@ func snapshot(ctx context.Context, s store.Store, nm names) map[string]any {
 	return snap
 }
 
+// wipe removes everything a sequence left behind under this worker's names, so that names (and
+// the engine cache keyed by them) are reused by the next sequence. All workers share one embedded
+// etcd (the integration framework allows one cluster per process); each has its own miniredis.
+func (b *backends) wipe(ctx context.Context, nm names) {
+	if m, ok := b.etcd.(*etcdv3.Mercury); ok {
+		for _, p := range []string{"p1", "p2"} {
+			_, _ = m.Delete(ctx, "/pod/info/"+nm.x(p))
+			_, _ = m.Delete(ctx, "/node/"+nm.x(p)+":pod/", clientv3.WithPrefix())
+		}
+		for _, n := range []string{"n1", "n2", "n3"} {
+			_, _ = m.Delete(ctx, "/node/"+nm.x(n))
+			_, _ = m.Delete(ctx, "/node/"+nm.x(n)+":", clientv3.WithPrefix())
+			_, _ = m.Delete(ctx, "/status:node/"+nm.x(n))
+		}
+		for _, w := range []string{"w1", "w2", "w3", "w4"} {
+			_, _ = m.Delete(ctx, "/workloads/"+nm.x(w))
+		}
+		for _, a := range []string{"a", "b"} {
+			for _, pre := range []string{"/deploy/", "/status/", "/processing/"} {
+				_, _ = m.Delete(ctx, pre+nm.x(a)+"/", clientv3.WithPrefix())
+			}
+		}
+	}
+	b.mr.FlushAll()
+}
+
+var etcdOnce sync.Once
+var sharedEtcd store.Store
+
+// forEachWorker runs fn on VERIF_PAR workers sharing the embedded etcd, each with its own miniredis
+// and its own name suffix.
+func forEachWorker(t *testing.T, fn func(w int, be *backends, nm names)) {
+	first := newBackends(t)
+	var wg sync.WaitGroup
+	for w := 0; w < vt.EnvInt("VERIF_PAR", 16); w++ {
+		be := first
+		if w > 0 {
+			be = newRedisOnly(t, first)
+		}
+		wg.Add(1)
+		go func(w int, be *backends) {
+			defer wg.Done()
+			fn(w, be, names{sfx: fmt.Sprintf("k%02d", w)})
+		}(w, be)
+	}
+	wg.Wait()
+}
+
 func TestStoreDiff(t *testing.T) {
 	out := vt.OpenTrace(t)
 	defer out.Close()
-	be := newBackends(t)
 	type job struct {
 		run int
 		ops []sop
 	}
 	ch := make(chan job, 64)
-	var wg sync.WaitGroup
 	var flush sync.Mutex
-	for w := 0; w < vt.EnvInt("VERIF_PAR", 16); w++ {
-		wg.Add(1)
-		go func() {
-			defer wg.Done()
-			ctx := context.Background()
-			for j := range ch {
-				nm := names{sfx: fmt.Sprintf("s%d", j.run)}
-				evs := []map[string]any{{"ev": "StoreRun", "run": j.run, "snapE": snapshot(ctx, be.etcd, nm), "snapR": snapshot(ctx, be.redis, nm)}}
-				for _, op := range j.ops {
-					ce := apply(ctx, be.etcd, nm, op)
-					cr := apply(ctx, be.redis, nm, op)
-					evs = append(evs, map[string]any{"ev": "StoreOp", "op": op, "classE": ce, "classR": cr,
-						"snapE": snapshot(ctx, be.etcd, nm), "snapR": snapshot(ctx, be.redis, nm)})
-				}
-				flush.Lock()
-				for _, ev := range evs {
-					out.Emit(ev)
-				}
-				flush.Unlock()
-			}
-		}()
-	}
 	run := 0
-	every := vt.EnvInt("VERIF_EVERY", 1)
-	k := 0
-	vt.EachInput(t, func(raw []byte) {
-		k++
-		if k%every != 0 {
-			return
+	go func() {
+		defer close(ch)
+		every := vt.EnvInt("VERIF_EVERY", 1)
+		k := 0
+		vt.EachInput(t, func(raw []byte) {
+			k++
+			if k%every != 0 {
+				return
+			}
+			var in struct {
+				Ops []sop `json:"ops"`
+			}
+			vt.MustUnmarshal(t, raw, &in)
+			run++
+			ch <- job{run, in.Ops}
+		})
+	}()
+	forEachWorker(t, func(w int, be *backends, nm names) {
+		ctx := context.Background()
+		for j := range ch {
+			be.wipe(ctx, nm)
+			evs := []map[string]any{{"ev": "StoreRun", "run": j.run, "snapE": snapshot(ctx, be.etcd, nm), "snapR": snapshot(ctx, be.redis, nm)}}
+			for _, op := range j.ops {
+				ce := apply(ctx, be.etcd, nm, op)
+				cr := apply(ctx, be.redis, nm, op)
+				evs = append(evs, map[string]any{"ev": "StoreOp", "op": op, "classE": ce, "classR": cr,
+					"snapE": snapshot(ctx, be.etcd, nm), "snapR": snapshot(ctx, be.redis, nm)})
+			}
+			flush.Lock()
+			for _, ev := range evs {
+				out.Emit(ev)
+			}
+			flush.Unlock()
 		}
-		var in struct {
-			Ops []sop `json:"ops"`
-		}
-		vt.MustUnmarshal(t, raw, &in)
-		run++
-		ch <- job{run, in.Ops}
 	})
-	close(ch)
-	wg.Wait()
 	t.Logf("store sequences: %d", run)
 }
